@@ -724,7 +724,7 @@ class Executor:
                 return ('MAP', tuple([(cv(k), cv(x)) for k, x in v[1]]))
             if tag == 'POOL':
                 return ('POOL', tuple([cv(x) for x in v[1]]))
-            if tag == 'B':
+            if tag == 'B' or tag == 'ADEC':
                 return v
             if tag == 'R':
                 if v[1] == 'maprange':
